@@ -2,6 +2,7 @@ package main
 
 import (
 	"fmt"
+	"math/big"
 	"strconv"
 	"strings"
 
@@ -17,6 +18,11 @@ const wordDigits = decimal.DigitsPerWord
 type World struct {
 	V   []*decimal.Decimal
 	Ctx *dctx.Context
+	// caller-supplied destinations of the conversions Int(z), Rat(z), Float(z);
+	// they persist over the history (ops IntTo, RatTo, FloatTo)
+	BI *big.Int
+	BR *big.Rat
+	BF *big.Float
 }
 
 func stalePattern(p int, seed uint64) func(i int) uint {
